@@ -151,7 +151,11 @@ class Interp:
                 if d is None:
                     g = _isinstance_of_e(s.test, evar)
                     if g is None:
-                        raise Unexpected("unexpected condition in the element loop: %s" % ast.unparse(s.test))
+                        # some other condition: both sides are read under the guard in force (an assignment to
+                        # e.voice / e.staff without an isinstance guard is refused below)
+                        self._assignments(s.body, evar, guard, guards, mapping)
+                        self._assignments(s.orelse, evar, guard, guards, mapping)
+                        continue
                     if guard is not None or s.orelse:
                         raise Unexpected("nested / two-sided isinstance in the element loop")
                     self._assignments(s.body, evar, _names_of(g, self.env), guards, mapping)
